@@ -46,9 +46,12 @@ SPEC = {
              "optional failing fillConf / constructor / registered factory and an optional in-place mutation of the product's config) "
              "through each shape in all three requested forms (New, NewFactory func() (I, error), NewFactory func() I) = 324 combinations. "
              "TestSequences: one random shape x form (+ 0-2 other registrations in the same registry) with 1-5 sessions of 1-8 creations. "
-             "TestConfigPath: 7 component types registered once on the global registry, created through pandora's real decoder + "
+             "TestConfigPath: 15 component types registered once on the global registry, created through pandora's real decoder + "
              "pluginconfig hooks into interface / func() (I, error) / func() I fields with generated settings, bad settings (unknown key, "
-             "wrong type, validation), failing constructors / factories, 1-5 products. TestIllegalRegistrations: 48 registrations the "
+             "wrong type, validation), failing constructors / factories, 1-5 products; 8 of the types ({component, factory} x {struct, "
+             "pointer config} x {default-config function, none} x error results) have a config whose validate rules (`s` required, "
+             "`n` min=1) the registered default - or the zero config - does not pass, and are created from a section holding only the "
+             "type key, from one that sets what the default lacks, and from any subset of the options. TestIllegalRegistrations: 48 registrations the "
              "package documents as illegal. Non-trivial = >= 2 products from one factory or an error path was taken (illegal "
              "registrations: always); distinct = hash of the case."),
     "floors": {
@@ -66,6 +69,11 @@ SPEC = {
         "TestConfigPath/factory_with_2plus_products": 0.2, "TestConfigPath/config_error_at_decode": 0.08,
         "TestConfigPath/config_error_as_result_at_product": 0.03, "TestConfigPath/config_error_as_panic_at_product": 0.03,
         "TestConfigPath/partial_overlay_of_default": 0.2, "TestConfigPath/config_mutated_by_product": 0.2,
+        "TestConfigPath/default_invalid_type_only_section": 0.05, "TestConfigPath/default_invalid_partly_overridden": 0.02,
+        "TestConfigPath/default_invalid_overridden_by_section": 0.06,
+        "TestConfigPath/default_invalid_component_component": 0.008, "TestConfigPath/default_invalid_component_factory_err": 0.015,
+        "TestConfigPath/default_invalid_component_factory_noerr": 0.015, "TestConfigPath/default_invalid_factory_component": 0.008,
+        "TestConfigPath/default_invalid_factory_factory_err": 0.015, "TestConfigPath/default_invalid_factory_factory_noerr": 0.015,
     },
     "required_classes": _shape_classes() + ["TestIllegalRegistrations/illegal_" + n for n in _ILLEGAL],
     "exhaustive_note": ("constructor-shape cross product: 108 shapes x 3 requested forms = 324 combinations are ALL executed by every "
@@ -82,7 +90,10 @@ SPEC = {
                  "configs are pointer-distinct and unaffected by other products scribbling over their slices/maps; for factory "
                  "constructors fillConf and the constructor run once per NewFactory and the registered factory once per product; other "
                  "registrations in the registry are never touched; unknown names are an error result. Illegal registrations must panic "
-                 "at Register and leave earlier registrations working. The same is checked end-to-end through config.Decode + pluginconfig hooks."),
+                 "at Register and leave earlier registrations working. The same is checked end-to-end through config.Decode + pluginconfig hooks, "
+                 "where a registered default that breaks the config's validate rules and is not repaired by the section (in particular a "
+                 "section holding only the type key) is a config error that must reach the caller like any other, and a section that "
+                 "repairs it yields components configured with default overlaid by the section."),
         "note": ("fillConf in the private-registry tests is the harness' own overlay (present fields replace), so decoder semantics for "
                  "slices/maps that overlay NON-empty defaults (mapstructure merges element-wise) are deliberately not asserted; the "
                  "config-path test uses nil slice/map defaults. For constructors without a config the number of fillConf calls per "
